@@ -157,6 +157,28 @@ theorem C12_rejected_runs_nothing (cfg : Config) (lr : LoadResult) (ctx : String
   · simp [dispatch, hj, he]
   · simp [dispatch, hj, hb, hs]
 
+/-- Every failure class runs the handlers - unknown method, parameters that do not bind, an error raised by the
+method, an arbitrary exception, and a failure outside the method body (`crashed`: the view's constructor raised,
+reported as the internal error): the error sent is what `runHandlers` returns for the raised error, and the handler
+events follow the events of the attempt. -/
+theorem C12_every_failure_runs_handlers (reg : Registry) (t : HandlerTable) (req : Request) (ctx : String) (i : ReqId)
+    (hid : req.id = some i) :
+    (∀ e ev, handleRpcMethod reg req.method req.params = (.rpcError e, ev) →
+      handleRequest reg t req ctx = (.set ⟨some i, .unset, .set (runHandlers t e).1⟩, ev ++ (runHandlers t e).2))
+    ∧ (∀ ev, handleRpcMethod reg req.method req.params = (.crashed, ev) →
+      handleRequest reg t req ctx
+        = (.set ⟨some i, .unset, .set (runHandlers t internalError).1⟩, ev ++ (runHandlers t internalError).2)) := by
+  constructor
+  · intro e ev h
+    simp [handleRequest, h, hid]
+  · intro ev h
+    simp [handleRequest, h, hid]
+
+/-- the failure outside the method body exists: a view whose constructor raises -/
+example : handleRpcMethod [("v", { name := "v", sig := [], view := true, initRaises := true, body := fun _ => .ret .null })] "v" .none
+    = (.crashed, []) := by
+  simp [handleRpcMethod, Registry.get]
+
 /-! ### Non-vacuity -/
 
 example : buildChain (fun r _ => (.unset, [.exec r.method .null])) 0 [.pass, .pass]
